@@ -117,13 +117,8 @@ def growth_guard(ctx, db):
 
 
 def _growth_as(ctx, db, rid):
-    # C06.growth registers and reports under its own id; call its body with a patched id
-    src = C06.growth
-    import inspect
-    code = inspect.getsource(src).replace("'C06.growth'", repr(rid)).replace('def growth(', 'def _g(')
-    ns = dict(C06.__dict__)
-    exec(code, ns)
-    ns['_g'](ctx, db)
+    # C06.growth, claimed under this property's id
+    C06.growth(ctx, db, rid)
 
 
 def enqueue_only_active(ctx, db):
